@@ -14,6 +14,9 @@ pub enum Op {
     RemoveMask(u64),
     /// set the mask and iterate to exhaustion, asking len()/size_hint() before every next()
     Phase(u64),
+    /// iterate to exhaustion under the mask that is already set (the full mask of a fresh
+    /// generator) without calling set_iterator_mask first
+    Drain,
 }
 impl Op {
     fn to_json(&self) -> Value {
@@ -21,6 +24,7 @@ impl Op {
             Op::RemoveMove(m) => json!(["remove_move", m.uci()]),
             Op::RemoveMask(b) => json!(["remove_mask", format!("{:#018x}", b)]),
             Op::Phase(b) => json!(["set_iterator_mask+drain", format!("{:#018x}", b)]),
+            Op::Drain => json!(["drain"]),
         }
     }
     fn from_json(v: &Value) -> Option<Op> {
@@ -29,6 +33,7 @@ impl Op {
         Some(match a.first()?.as_str()? {
             "remove_move" => Op::RemoveMove(Mv::parse_uci(a.get(1)?.as_str()?)?),
             "remove_mask" => Op::RemoveMask(hx(a.get(1)?)?),
+            "drain" => Op::Drain,
             _ => Op::Phase(hx(a.get(1)?)?),
         })
     }
@@ -112,6 +117,11 @@ pub fn gen_program(p: &Pos, legal: &[Mv], t: &mut Tape) -> Vec<Op> {
     for _ in 0..t.below(4) {
         gen_removal(t, &mut ops);
     }
+    if t.chance(1, 4) {
+        // a fresh generator iterated directly (no set_iterator_mask call at all)
+        ops.push(Op::Drain);
+        return ops;
+    }
     let phases = t.below(4);
     for _ in 0..phases {
         ops.push(Op::Phase(gen_mask(p, legal, t)));
@@ -150,6 +160,7 @@ pub fn check_program(ctx: &mut Ctx, start: &Pos, moves: &[Mv], ops: &[Op]) -> Re
     let mut yielded: BTreeSet<Mv> = BTreeSet::new();
     let mut nonempty_phases = 0;
     let mut special_removal = false;
+    let mut cur_mask: u64 = !0;
     for (i, op) in ops.iter().enumerate() {
         match op {
             Op::RemoveMove(m) => {
@@ -175,8 +186,15 @@ pub fn check_program(ctx: &mut Ctx, start: &Pos, moves: &[Mv], ops: &[Op]) -> Re
                 }
                 ctx.class("remove:destination-mask");
             }
-            Op::Phase(mask) => {
-                mg.set_iterator_mask(BitBoard::new(*mask));
+            Op::Phase(_) | Op::Drain => {
+                let mask = &match op {
+                    Op::Phase(m) => {
+                        mg.set_iterator_mask(BitBoard::new(*m));
+                        cur_mask = *m;
+                        *m
+                    }
+                    _ => cur_mask,
+                };
                 let must: BTreeSet<Mv> = legal.iter().copied().filter(|m| mask >> m.to & 1 == 1 && !removed.contains(m) && !may.contains(m) && !yielded.contains(m)).collect();
                 let allowed: BTreeSet<Mv> = legal.iter().copied().filter(|m| mask >> m.to & 1 == 1 && !removed.contains(m) && !yielded.contains(m)).collect();
                 let mut lens: Vec<(usize, (usize, Option<usize>))> = vec![];
@@ -249,8 +267,10 @@ pub fn run(cfg: &Cfg) -> i32 {
             let sp = Pos::startpos();
             let a3c3 = (1u64 << 16) | (1u64 << 18);
             engine::run_one(ctx, |ctx| check_program(ctx, &sp, &[], &[Op::Phase(!0)]))?;
+            engine::run_one(ctx, |ctx| check_program(ctx, &sp, &[], &[Op::Drain]))?;
+            engine::run_one(ctx, |ctx| check_program(ctx, &sp, &[], &[Op::RemoveMask(a3c3), Op::Drain]))?;
             engine::run_one(ctx, |ctx| check_program(ctx, &sp, &[], &[Op::RemoveMask(a3c3), Op::Phase(!0)]))?;
-            engine::run_one(ctx, |ctx| check_program(ctx, &sp, &[], &[Op::RemoveMove(Mv::parse_uci("a2a3").unwrap()), Op::RemoveMove(Mv::parse_uci("a2a4").unwrap()), Op::Phase(!0)]))?;
+            engine::run_one(ctx, |ctx| check_program(ctx, &sp, &[], &[Op::RemoveMove(Mv::parse_uci("a2a3").unwrap()), Op::RemoveMove(Mv::parse_uci("a2a4").unwrap()), Op::Drain]))?;
             let promo = Pos::from_fen("8/4P3/8/8/8/k7/8/K7 w - - 0 1").unwrap();
             engine::run_one(ctx, |ctx| check_program(ctx, &promo, &[], &[Op::Phase(!0)]))?;
             let ms: Vec<Mv> = ["e2e4", "h7h6", "e4e5", "d7d5"].iter().map(|m| Mv::parse_uci(m).unwrap()).collect();
@@ -302,7 +322,7 @@ pub fn run(cfg: &Cfg) -> i32 {
     engine::finish(
         report,
         EvidenceSpec {
-            rule: "cases = (position, program): positions are curated / set-up starts advanced by 0-12 reference moves; a program is 0-3 removals (a legal move, an en-passant capture or promotion if available, all moves of one piece, all destinations of one piece as a mask, a single destination, a generated mask) followed by 0-3 mask phases (enemy occupancy and its complement, one destination, rank, file, empty, full, half of the destination squares, random, promotion/en-passant squares; occasionally another removal between phases) and a final full-mask phase; each phase is drained with len() and size_hint() recorded before every next(). Oracle: a set model over the reference legal moves - every phase yields each not-yet-yielded, not-removed legal move landing on the mask exactly once (other promotions to a removed promotion's square may or may not appear), nothing else, and every recorded len()/size_hint() equals the number of moves actually yielded afterwards in that phase. evaluations = programs. Non-trivial = >= 2 non-empty phases, or removal of an en-passant capture, a promotion or a piece's only move; distinct = program fingerprints.".into(),
+            rule: "cases = (position, program): positions are curated / set-up starts advanced by 0-12 reference moves; a program is 0-3 removals (a legal move, an en-passant capture or promotion if available, all moves of one piece, all destinations of one piece as a mask, a single destination, a generated mask) followed either by a direct drain of the fresh generator (no set_iterator_mask call; 1 program in 4) or by 0-3 mask phases (enemy occupancy and its complement, one destination, rank, file, empty, full, half of the destination squares, random, promotion/en-passant squares; occasionally another removal between phases) and a final full-mask phase; each phase is drained with len() and size_hint() recorded before every next(). Oracle: a set model over the reference legal moves - every phase yields each not-yet-yielded, not-removed legal move landing on the mask exactly once (other promotions to a removed promotion's square may or may not appear), nothing else, and every recorded len()/size_hint() equals the number of moves actually yielded afterwards in that phase. evaluations = programs. Non-trivial = >= 2 non-empty phases, or removal of an en-passant capture, a promotion or a piece's only move; distinct = program fingerprints.".into(),
             assumptions: vec!["reference legal move set".into(), "masks are replaced only after exhaustion and removals are made only between phases, as the statement's quantifier says".into()],
             trusted_base: vec!["harness/src/refmodel.rs".into(), "proptest 1.11".into()],
             exhaustive: None,
